@@ -143,6 +143,8 @@ func TestCheck(t *testing.T) {
 		}
 		classify(rec, gp, p, want)
 	})
+	rec.Unfreeze()
+	stackDiscipline(t, rec)
 }
 
 func asOptimizerErr(err error) (*ugo.OptimizerError, bool) {
